@@ -159,3 +159,154 @@ Example C19_regex_example :
                                            {| r_locs := [(3, 9)]; r_finding := Some 8 |} ]%N) lines =
     Some ([ {| c_line := 3; c_findings := [7; 9] |} ], [[97; 10]; [98; 10]; [65; 99]], [(7, 2)])%N.
 Proof. vm_compute. split; reflexivity. Qed.
+
+(** * XML half
+
+    Full statement: for every well-formed document, attribute map / list of new elements and finding set, the
+    document written by XMLTransformerPipeline, read back by an XML parser, has the same elements, attributes,
+    character data (CDATA content included), comments, processing instructions and document type declaration as the
+    input, except for exactly the targeted edits ([canon (parse (output)) = canon (retarget input)]); one change per
+    edit with the findings of that line; dry-run writes nothing; a document that does not parse is left alone.
+
+    What is proved here ([_partial]): (1) at the level of the SAX event stream handed to the serializer, the
+    transformers change exactly the targeted start tags' attributes / insert exactly the new children (well nested)
+    and report one change per edit; (2) the two escaping functions of the serializer are decodable in any context
+    (so character data and attribute values survive a parse of the emitted text), character data never contains
+    markup delimiters; (3) apply()'s guards.  What is MISSING: a Coq [meaning : text -> events] for the whole emitted
+    grammar and the round trip [meaning (emit evs) = canon evs]; that composition is only TESTED: on every run the
+    model's text is compared byte for byte with the real output and the real output is re-parsed with expat and
+    compared with [canon (retarget input)] evaluated in Coq (Harness/C19_xml_run.v).
+    Refuted (hand-written lexical handlers, reproduced on the implementation): CDATA content is escaped, the
+    DOCTYPE is rewritten with the literal ids "None", a comment is followed by a new line that becomes character
+    data inside mixed content, a carriage return in character data comes back as a line feed.
+    Outside the property's list and not preserved by construction: the XML declaration (always rewritten to
+    version 1.0 / encoding utf-8, [standalone] dropped), a byte order mark, the internal DTD subset, empty-element
+    tags (<e/> becomes <e></e>), white space inside tags and between prolog items, the quote character of
+    attribute values.  Attribute order and namespace prefixes/declarations are preserved (namespace processing is off). *)
+From CM Require Import Model.XmlPipe Spec.XmlPipeSpec Proofs.XmlPipeFacts.
+From Coq Require Import String.
+
+Theorem C19_xml_attr_events_preserved_partial :
+  forall fc amap results lo evs,
+    let out := fst (run_steps (attr_step fc amap results lo) evs) in
+    let changes := snd (run_steps (attr_step fc amap results lo) evs) in
+    List.length out = List.length evs /\
+    (forall i pe, nth_error evs i = Some pe ->
+        match attr_target amap results lo pe with
+        | None => nth_error out i = Some (pe_ev pe)                      (* every other event: identical *)
+        | Some (n, a, new) =>                                            (* a targeted start tag: same name, *)
+            exists a', nth_error out i = Some (StartElement n a') /\
+              (forall k, dget str_eqb k new = None -> dget str_eqb k a' = dget str_eqb k a) /\     (* other attributes kept *)
+              (forall k, dget str_eqb k new <> None -> exists v, In (k, v) new /\ dget str_eqb k a' = Some v) /\
+              (exists extra, dkeys a' = dkeys a ++ extra /\ forall k, In k extra -> dhas str_eqb k a = false)  (* order kept *)
+        end) /\
+    changes = changes_attr fc amap results lo evs.    (* one change per edited element, in order, findings of its line *)
+Proof. exact xml_attr_events_preserved. Qed.
+Print Assumptions C19_xml_attr_events_preserved_partial.
+
+Theorem C19_xml_new_events_preserved_partial :
+  forall fc news evs,
+    let out := fst (run_steps (new_step fc news) evs) in
+    let changes := snd (run_steps (new_step fc news) evs) in
+    out = retarget_new news evs /\ changes = changes_new fc news evs /\
+    (forall pe, new_children news pe <> [] ->
+        exists n, pe_ev pe = EndElement n /\
+                  forall ne, In ne (new_children news pe) -> In ne news /\ ne_parent ne = n) /\
+    (forall l st, nest st (flat_map add_new_element l) = Some st) /\
+    (forall st st', nest st (map pe_ev evs) = Some st' -> nest st out = Some st').
+Proof. exact xml_new_events_preserved. Qed.
+Print Assumptions C19_xml_new_events_preserved_partial.
+
+(** the serializer's escaping: decodable whatever follows; no markup delimiter inside character data;
+    guard [no_specials]: text without & < > is written verbatim (also inside CDATA) *)
+Theorem C19_xml_serializer_decodable_partial :
+  (forall s, unescape (escape s) = s) /\
+  (forall a b, escape a = escape b -> a = b) /\
+  (forall s, ~ In 60%N (escape s) /\ ~ In 62%N (escape s)) /\
+  (forall v rest, unquote (quoteattr v ++ rest) = Some (v, rest)) /\
+  (forall a b, quoteattr a = quoteattr b -> a = b) /\
+  (forall s, no_specials s = true -> emit_all [StartCDATA; Characters s; EndCDATA] = lit "<![CDATA[" ++ s ++ lit "]]>") /\
+  (forall n p s, emit (StartDTD n (Some p) (Some s)) = ref_doctype n (Some p) (Some s) ++ [10%N]).
+Proof.
+  split; [exact unescape_escape|]. split; [exact escape_inj|]. split; [exact escape_no_markup|].
+  split; [exact unquote_quoteattr|]. split; [exact quoteattr_inj|]. split.
+  - intros s H. unfold emit_all. cbn [flat_map emit]. now rewrite (escape_id s H), app_nil_r.
+  - intros n p s. unfold emit, ref_doctype, fmt_opt. repeat rewrite <- app_assoc. reflexivity.
+Qed.
+Print Assumptions C19_xml_serializer_decodable_partial.
+
+Theorem C19_xml_apply_guards :
+  forall fc D (mkdiff : str -> str -> D) step original parse,
+    let dry := xml_apply fc mkdiff step true original parse in
+    let real := xml_apply fc mkdiff step false original parse in
+    xo_file dry = original /\ xo_ret dry = xo_ret real /\ xo_failed dry = xo_failed real /\ xo_unfixed dry = xo_unfixed real /\
+    (xo_ret real = None -> xo_file real = original) /\
+    (parse = None -> xo_ret real = None /\ xo_failed real = true /\
+                     xo_unfixed real = map (fun f => (f, 0%N)) (xall_findings fc)) /\
+    (forall evs, parse = Some evs ->
+       xo_failed real = false /\ xo_unfixed real = [] /\
+       (xo_ret real = None <-> snd (run_steps step evs) = []) /\
+       forall cs, xo_ret real = Some cs ->
+                  xcs_changes cs = snd (run_steps step evs) /\
+                  xo_file real = universal_newlines (emit_all (fst (run_steps step evs))) /\
+                  xcs_diff cs = mkdiff original (xo_file real)).
+Proof. exact xml_apply_guards. Qed.
+Print Assumptions C19_xml_apply_guards.
+
+(** ** refutations (class kf_xml_cdata_escaped): XMLGenerator.characters escapes inside a CDATA section too *)
+Theorem C19_xml_refuted_cdata :
+  (forall c, emit_all [StartCDATA; Characters c; EndCDATA] = lit "<![CDATA[" ++ escape c ++ lit "]]>") /\
+  (forall c, no_specials c = false -> escape c <> c) /\
+  emit_all [StartCDATA; Characters (lit "a<b&c"); EndCDATA] = lit "<![CDATA[a&lt;b&amp;c]]>".
+Proof.
+  split; [|split].
+  - intros c. unfold emit_all. cbn [flat_map emit]. now rewrite app_nil_r.
+  - exact escape_changes.
+  - vm_compute. reflexivity.
+Qed.
+Print Assumptions C19_xml_refuted_cdata.
+
+(** (class kf_xml_doctype_rewritten): startDTD formats the absent public/system ids with an f-string *)
+Theorem C19_xml_refuted_doctype :
+  emit (StartDTD (lit "r") None None) = lit "<!DOCTYPE r PUBLIC ""None"" ""None"">" ++ [10%N] /\
+  (forall n s, emit (StartDTD n None s) <> ref_doctype n None s ++ [10%N]).
+Proof.
+  split; [vm_compute; reflexivity|].
+  intros n s E. unfold emit, ref_doctype in E. repeat rewrite <- app_assoc in E.
+  apply app_inv_head in E. apply app_inv_head in E. destruct s; vm_compute in E; discriminate.
+Qed.
+Print Assumptions C19_xml_refuted_doctype.
+
+(** (class kf_xml_comment_newline_in_text): the comment handler writes a new line after "-->"; inside mixed
+    content it is character data.  (class kf_xml_cr_becomes_lf): a carriage return in character data is written
+    raw and read back from the text-mode temporary file as a line feed. *)
+Theorem C19_xml_refuted_comment_newline :
+  emit_all [Characters (lit "x"); Comment (lit "c"); Characters (lit "y")] = lit "x<!--c-->" ++ [10%N] ++ lit "y" /\
+  universal_newlines (emit_all [Characters [120; 13; 121]%N]) = [120; 10; 121]%N.
+Proof. split; vm_compute; reflexivity. Qed.
+Print Assumptions C19_xml_refuted_comment_newline.
+
+(** non-vacuity: <r><e a="1"/>t&amp;<!--c--></r>, map {e: {a: "2", z: "<"}} matched on the position of <e>;
+    new element n under every e *)
+Example C19_xml_example :
+  let evs := [ {| pe_line := 1%N; pe_col := 0%Z; pe_ev := StartDocument |};
+               {| pe_line := 1%N; pe_col := 0%Z; pe_ev := StartElement (lit "r") [] |};
+               {| pe_line := 1%N; pe_col := 3%Z; pe_ev := StartElement (lit "e") [(lit "a", lit "1")] |};
+               {| pe_line := 1%N; pe_col := 3%Z; pe_ev := EndElement (lit "e") |};
+               {| pe_line := 1%N; pe_col := 13%Z; pe_ev := Characters (lit "t&") |};
+               {| pe_line := 1%N; pe_col := 19%Z; pe_ev := Comment (lit "c") |};
+               {| pe_line := 1%N; pe_col := 27%Z; pe_ev := EndElement (lit "r") |} ] in
+  let fc := [ {| x_locs := [(1%N, 4%Z, 1%N)]; x_finding := Some 7%N |} ]%N in
+  let amap := [(lit "e", [(lit "a", lit "2"); (lit "z", lit "<")])] in
+  run_steps (attr_step fc amap (Some fc) false) evs =
+    ([StartDocument; StartElement (lit "r") []; StartElement (lit "e") [(lit "a", lit "2"); (lit "z", lit "<")];
+      EndElement (lit "e"); Characters (lit "t&"); Comment (lit "c"); EndElement (lit "r")],
+     [ {| xc_line := 1%N; xc_findings := [7%N] |} ]) /\
+  universal_newlines (emit_all (fst (run_steps (attr_step fc amap (Some fc) false) evs))) =
+    lit "<?xml version=""1.0"" encoding=""utf-8""?>" ++ [10%N] ++
+    lit "<r><e a=""2"" z=""&lt;""></e>t&amp;<!--c-->" ++ [10%N] ++ lit "</r>" /\
+  fst (run_steps (new_step fc [NE (lit "n") (lit "e") (NEText (lit "<")) []]) evs) =
+    [StartDocument; StartElement (lit "r") []; StartElement (lit "e") [(lit "a", lit "1")];
+     StartElement (lit "n") []; Characters (lit "<"); EndElement (lit "n");
+     EndElement (lit "e"); Characters (lit "t&"); Comment (lit "c"); EndElement (lit "r")].
+Proof. vm_compute. repeat split; reflexivity. Qed.
